@@ -7,7 +7,7 @@ from . import datacases as D
 from . import abichecks as A
 from . import schema_gen as G
 
-THEOREMS = ["C11_sound", "C11_unknown_is_no", "C11_mask", "C11_by_ref_needs_layout"]
+THEOREMS = ["C11_sound", "C11_unknown_is_no", "C11_mask", "C11_by_ref_needs_layout", "C11_by_ref_needs_unchanged"]
 HEADER13 = "From Coq Require Import String.\nFrom SF Require Import Bytes Schema Harness.\nImport ListNotations.\nOpen Scope string_scope.\nOpen Scope N_scope.\n"
 
 
